@@ -48,6 +48,9 @@ type xl struct {
 	out     strings.Builder
 	recvPtr string // name of pointer receiver being threaded, or ""
 	scope   map[string]bool // names declared so far in the function being translated (params, receiver, := / var)
+	ptrParams []string      // names of the `*float64` PARAMETERS of the function being translated: `*p = e` rebinds p, every return yields (result, p…)
+	allowAddr bool          // translating the argument list of a call whose callee has such parameters: `&local` passes the local's value
+	outCalls  int           // counter for the result variables of such calls
 	usesInf bool            // the function being translated mentions math.Inf: it takes a `[ScalarInf α]` instance argument
 }
 
@@ -297,6 +300,9 @@ func (x *xl) expr(e ast.Expr) string {
 		case token.ADD:
 			return x.expr(e.X)
 		case token.AND:
+			if id, ok := e.X.(*ast.Ident); ok && x.allowAddr && x.scope[id.Name] {
+				return leanIdent(id.Name)
+			}
 			x.fail(e, "address-of")
 		}
 	case *ast.BinaryExpr:
@@ -524,6 +530,9 @@ func (x *xl) funcLit(f *ast.FuncLit) string {
 	}
 	saved := x.recvPtr
 	x.recvPtr = ""
+	savedPtr := x.ptrParams
+	x.ptrParams = nil
+	defer func() { x.ptrParams = savedPtr }()
 	savedScope := copyset(x.scope)
 	for i := 0; i < sig.Params().Len(); i++ {
 		if x.scope[sig.Params().At(i).Name()] {
@@ -722,6 +731,13 @@ func (x *xl) block(stmts []ast.Stmt, tail string) string {
 			return leanIdent(x.recvPtr)
 		}
 		if len(s.Results) == 1 {
+			if len(x.ptrParams) > 0 {
+				ps := []string{x.expr(s.Results[0])}
+				for _, p := range x.ptrParams {
+					ps = append(ps, leanIdent(p))
+				}
+				return "(" + strings.Join(ps, ", ") + ")"
+			}
 			return x.expr(s.Results[0])
 		}
 		var ps []string
@@ -805,7 +821,83 @@ func (x *xl) block(stmts []ast.Stmt, tail string) string {
 		case *ast.IfStmt:
 			x.noShadow([]ast.Stmt{e})
 		}
-		cond := x.expr(s.Cond)
+		pre, cond := x.condWithOutParams(s.Cond)
+		if pre != "" {
+			out := x.ifStmt(s, rest, tail, cond)
+			return pre + out
+		}
+		return x.ifStmt(s, rest, tail, cond)
+	case *ast.RangeStmt:
+		return x.rangeStmt(s, rest, tail)
+	}
+	x.fail(s, "statement %T", s)
+	return ""
+}
+
+// floatPtrParams: indices of the parameters of type *float (out-parameters) of a signature
+func floatPtrParams(sig *types.Signature) []int {
+	var r []int
+	for i := 0; i < sig.Params().Len(); i++ {
+		if p, ok := sig.Params().At(i).Type().(*types.Pointer); ok {
+			if b, ok := p.Elem().Underlying().(*types.Basic); ok && b.Info()&types.IsFloat != 0 {
+				r = append(r, i)
+			}
+		}
+	}
+	return r
+}
+
+// condWithOutParams: an if-condition that is exactly a call `f(…, &a, &b, …)` of a translated function with `*float64`
+// parameters.  The callee's translation returns (result, a', b'): bind it, rebind the locals, test the first component.
+// Any other use of `&` stays unsupported.
+func (x *xl) condWithOutParams(cond ast.Expr) (string, string) {
+	c, ok := cond.(*ast.CallExpr)
+	if !ok {
+		return "", x.expr(cond)
+	}
+	tv, ok := x.info().Types[c.Fun]
+	if !ok {
+		return "", x.expr(cond)
+	}
+	sig, ok := tv.Type.(*types.Signature)
+	if !ok {
+		return "", x.expr(cond)
+	}
+	idx := floatPtrParams(sig)
+	if len(idx) == 0 {
+		return "", x.expr(cond)
+	}
+	var names []string
+	for _, i := range idx {
+		u, ok := c.Args[i].(*ast.UnaryExpr)
+		if !ok || u.Op != token.AND {
+			x.fail(c, "out-parameter argument must be &local")
+		}
+		id, ok := u.X.(*ast.Ident)
+		if !ok || !x.scope[id.Name] {
+			x.fail(c, "out-parameter argument must be &local")
+		}
+		names = append(names, id.Name)
+	}
+	x.allowAddr = true
+	call := x.call(c)
+	x.allowAddr = false
+	x.outCalls++
+	r := fmt.Sprintf("r%d'", x.outCalls)
+	var sb strings.Builder
+	fmt.Fprintf(&sb, "let %s := %s\n", r, call)
+	for k, n := range names {
+		proj := strings.Repeat(".2", k+1)
+		if k < len(names)-1 {
+			proj += ".1"
+		}
+		fmt.Fprintf(&sb, "let %s := %s%s\n", leanIdent(n), r, proj)
+	}
+	return sb.String(), "(" + r + ").1"
+}
+
+func (x *xl) ifStmt(s *ast.IfStmt, rest []ast.Stmt, tail string, cond string) string {
+	{
 		var els []ast.Stmt
 		switch e := s.Else.(type) {
 		case *ast.BlockStmt:
@@ -830,7 +922,11 @@ func (x *xl) block(stmts []ast.Stmt, tail string) string {
 			tp := tuple(vars)
 			return "let " + tp + " := if " + cond + " then\n" + indent(x.block(s.Body.List, tp)) + "\n  else\n" + indent(x.block(els, tp)) + "\n" + x.block(rest, tail)
 		}
-	case *ast.RangeStmt:
+	}
+}
+
+func (x *xl) rangeStmt(s *ast.RangeStmt, rest []ast.Stmt, tail string) string {
+	{
 		if s.Tok != token.DEFINE {
 			x.fail(s, "range without :=")
 		}
@@ -854,8 +950,6 @@ func (x *xl) block(stmts []ast.Stmt, tail string) string {
 		tp := tuple(vars)
 		return "let " + tp + " := (" + x.expr(s.X) + ").foldl (fun " + tp + " " + leanIdent(v.Name) + " =>\n" + indent(x.block(s.Body.List, tp)) + ") " + tp + "\n" + x.block(rest, tail)
 	}
-	x.fail(s, "statement %T", s)
-	return ""
 }
 
 func sortedKeys(m map[string]bool) []string {
@@ -890,6 +984,14 @@ func (x *xl) assign(lhs ast.Expr, rhs string, n ast.Node) string {
 		}
 		x.fail(n, "nested field assignment")
 	case *ast.StarExpr:
+		// `*p = e` where p is a `*float64` PARAMETER of this function: rebinding; the final value is returned next to the result
+		if id, ok := l.X.(*ast.Ident); ok {
+			for _, p := range x.ptrParams {
+				if p == id.Name {
+					return fmt.Sprintf("let %s := %s\n", leanIdent(id.Name), rhs)
+				}
+			}
+		}
 		x.fail(n, "store through pointer")
 	}
 	x.fail(n, "assignment target %T", lhs)
@@ -970,9 +1072,19 @@ func (x *xl) funcDecl(pkg *packages.Package, name string) {
 		t := x.typ(p.Type(), fd)
 		params = append(params, "("+leanIdent(p.Name())+" : "+t+")")
 	}
+	x.ptrParams = nil
+	x.outCalls = 0
+	for _, i := range floatPtrParams(sig) {
+		x.ptrParams = append(x.ptrParams, sig.Params().At(i).Name())
+	}
 	var ret string
 	tail := ""
 	switch {
+	case len(x.ptrParams) > 0:
+		if x.recvPtr != "" || sig.Results().Len() != 1 {
+			x.fail(fd, "*float64 parameters only on a value-receiver function with one result")
+		}
+		ret = "(" + x.typ(sig.Results().At(0).Type(), fd) + strings.Repeat(" × α", len(x.ptrParams)) + ")"
 	case x.recvPtr != "" && sig.Results().Len() == 0:
 		ret = x.typ(sig.Recv().Type(), fd)
 		tail = leanIdent(x.recvPtr)
